@@ -69,7 +69,7 @@ def pair_plan(p, tier, rng):
     for name in sorted(g):
         ids = g[name]
         fam = name.split(":")[0]
-        if fam == "multi":
+        if fam in ("multi", "shared"):
             cand = [(a, b) for a in ids for b in ids if a != b]
             rng.shuffle(cand)
             out += [(name, a, b) for a, b in cand[: 3 if tier == "quick" else 12]]
@@ -125,6 +125,8 @@ def plan(tier, seed):
     per = 6 if tier == "quick" else 12
     for i in range(0, len(trials), per):
         sh.append({"kind": "coldsched", "trials": trials[i : i + per], "tier": tier, "_name": f"coldsched-{i // per}"})
+    for i in range(1 if tier == "quick" else 4):
+        sh.append({"kind": "afterfail", "part": i, "tier": tier, "_name": f"afterfail-{i}"})
     cf = coldfocus_trials(p, tier)
     per = 2 if tier == "quick" else 8
     for i in range(0, len(cf), per):
@@ -194,7 +196,7 @@ def run_explore(shard, mon, S, p):
     rng = env.rng("C14", shard["_name"])
     traces = set()
     budget = sz["budget"] if gran == "line" else max(2000, sz["budget"] // 3)
-    order = sorted(shard["pairs"], key=lambda x: 0 if x[0].startswith(("multi", "algo-unknown")) else 1 if x[0].startswith(("algo", "api", "nat")) else 2)
+    order = sorted(shard["pairs"], key=lambda x: 0 if x[0].startswith(("multi", "algo-unknown", "shared")) else 1 if x[0].startswith(("algo", "api", "nat")) else 2)
     try:
         for name, a, b in order:
             if mon.evaluations >= budget:
@@ -707,6 +709,57 @@ def run_coldfocus(shard, mon, S, p):
         mon.sample({"first_use_trial": {"first_call": p[a], "second_call": p[b], "preempt_first_at_step_inside_checksum_modules": k}})
 
 
+def run_afterfail(shard, mon, S, p):
+    """The main thread makes calls that fail (handled), then a second thread makes ordinary calls.  Whatever a
+    failed call leaves behind (a lock that was not released, a half-replaced table) must not change what the
+    second thread gets.  A second thread that makes no progress at all for 20 s while the main thread completes
+    the very same calls in the meantime, twice in a row, is reported as blocked; anything less clear-cut is
+    inconclusive."""
+    import time  # noqa: PLC0415
+
+    rng = env.rng("C14", "afterfail", shard["part"])
+    ids = [i for i, d in enumerate(p) if d["fn"] in ("from_bank_code", "candidates", "iban_lookup", "bic_lookup", "iban", "bic", "generate", "random")]
+    ids = rng.sample(ids, 24)
+    solo = {i: calls.execute(S, p[i]) for i in ids}
+    fails = [d for d in p if d["fn"] == "registry_fail"] + [{"fn": "iban", "text": "XX00", "kw": {}}, {"fn": "from_bank_code", "country": "DE", "code": "x"}, {"fn": "bban", "country": "DE", "value": "3704004405A2013000"}]
+    blocked_rounds = 0
+    for rnd in range(2):
+        for d in fails:
+            calls.execute(S, d)
+        done: dict = {}
+
+        def body():
+            for i in ids:
+                done[i] = calls.execute(S, p[i])
+
+        t = threading.Thread(target=body, daemon=True)
+        t.start()
+        t.join(20)
+        mon.ev(len(done))
+        if t.is_alive():
+            n1 = len(done)
+            t0 = time.time()
+            mine = {i: calls.execute(S, p[i]) for i in ids}  # the same calls, in the thread that made the failing calls
+            main_s = time.time() - t0
+            t.join(20)
+            if t.is_alive() and len(done) == n1 and all(calls.digest(mine[i]) == calls.digest(solo[i]) for i in ids):
+                blocked_rounds += 1
+                mon.notes.setdefault("afterfail", []).append({"round": rnd, "second_thread_calls_done": n1, "main_thread_same_calls_s": round(main_s, 3)})
+                continue
+            if t.is_alive():
+                mon.inconclusive.append("second thread slow after failing calls, but progressing")
+                continue
+        for i, o in done.items():
+            mon.distinct(("afterfail", shard["part"], rnd, i))
+            if calls.digest(o) != calls.digest(solo[i]):
+                mon.viol(f"concurrent_outcome_differs_from_solo:second_thread_after_failed_calls:{p[i]['fn']}", {"descriptor": p[i], "failed_calls_before": fails[:3]}, json.dumps(solo[i], default=str)[:300], json.dumps(o, default=str)[:300])
+    mon.tally("second_thread_after_failed_calls_rounds", 2)
+    if blocked_rounds == 2:
+        mon.viol("second_thread_blocked_after_failed_calls", {"failed_calls": fails, "blocked_call": p[ids[0]], "observations": mon.notes.get("afterfail")}, "returns as it does alone", "no progress for 2 x 40 s while the failing thread completes the same calls")
+    elif blocked_rounds == 1:
+        mon.inconclusive.append("second thread blocked in one of two rounds after failing calls")
+
+
 def run_solo(shard, mon, S, p):
     sz = SIZES[shard["tier"]]
     ids = sorted({i for k in range(sz["cold"]) for i in cold_ids(p, k)} | {i for a, b, _ in coldsched_trials(p, shard["tier"]) + coldfirst_trials(p, shard["tier"]) for i in (a, b)} | {i for _, prs in coldfocus_trials(p, shard["tier"]) for ab in prs for i in ab})
@@ -722,7 +775,7 @@ def run_shard(shard, out_base):
     S = judge.lib()
     calls.capture_warnings()
     p = the_pool(shard["tier"], shard.get("pool_file"))
-    {"explore": run_explore, "stress": run_stress, "cold": run_cold, "solo": run_solo, "coldsched": run_coldsched, "coldfocus": run_coldfocus, "fresh": run_fresh_explore}[shard["kind"]](shard, mon, S, p)
+    {"explore": run_explore, "stress": run_stress, "cold": run_cold, "solo": run_solo, "coldsched": run_coldsched, "coldfocus": run_coldfocus, "afterfail": run_afterfail, "fresh": run_fresh_explore}[shard["kind"]](shard, mon, S, p)
     return mon.result(out_base)
 
 
